@@ -3,7 +3,7 @@ UNITS = {"c02node": dict(pkg="./pkg/controller/multi-ip/node", tags="default_bui
 # candidate findings reported to the lead; until they are entered into known_findings.json
 # (or repaired) their guards are switched on through this variable (see c08Known in
 # zz_verif_c02_engine_test.go). Remove an id here once it is listed or fixed.
-_PENDING = {"VERIF_PENDING_KNOWN": "C08-double-fault-orphan,C08-idle-eni-kept,C08-greedy-demand-oscillation,C08-eflo-partial-key-collision,C08-negative-slot-count,C08-sync-merge-nil-map,C08-sync-drops-detached-eni,C08-lost-write-no-resync,C08-rollback-record-lacks-mode,C08-rdma-idle-oscillation,C08-dual-stack-imbalance,C02-v4-not-on-v6-eni,C02-rollback-unbinds-existing-v4"}
+_PENDING = {}
 
 _W = ["DoubleFaultOrphan", "IdleENIKept", "GreedyDemand", "RDMAIdle", "DualStackImbalance", "LostWrite", "RollbackRecordLacksMode",
       "SyncMergeNilMap", "SyncDropsDetachedENI", "EFLOPartialKeyCollision", "NegativeSlotCount"]
